@@ -7,7 +7,8 @@ def main(tier, seed):
     return sprops.main_pairs(PID, tier, seed, {71, 61, 62, 81}, "Props.C09",
                              ["Model/Sim.v", "Model/SimTime.v", "Model/Inline.v", "Oracle/SimCheck.v", "Oracle/SimOracle.v", "Proofs/SimP.v",
                               "Proofs/FlattenP.v", "Proofs/EqvP.v", "Proofs/WakeWfP.v", "Proofs/InlineP.v", "Proofs/InlineLoopP.v",
-                              "Proofs/InlineScopeP.v", "Proofs/NonInterfLoopP.v", "Proofs/SimTimeP.v", "Props/C09.v"],
+                              "Proofs/InlineScopeP.v", "Proofs/NonInterfLoopP.v", "Proofs/SimTimeP.v", "Model/NSim.v", "Proofs/InlineLatestP.v",
+                              "Proofs/Confluence2P.v", "Proofs/ScheduleP.v", "Proofs/SimTraceP.v", "Props/C09.v"],
                              "transparency of system simulations", "flatten")
 
 
